@@ -75,7 +75,9 @@ def syncChunks (s : St) : St :=
       else
         let a := ts[0]!
         let b := ts[c.cnt - 1]!
-        (min a b, max a b)
+        -- proposed repair F78 (regenerated fact `lightFillScansAllRecords`): minimum and maximum over EVERY confirmed record
+        if Generated.C02.lightFillScansAllRecords then ((ts.extract 0 c.cnt).foldl min a, (ts.extract 0 c.cnt).foldl max a)
+        else (min a b, max a b)
     let nc : CIndex.Chk := { id := c.id / 10, minTs := mn, maxTs := mx, recs := c.cnt }
     (cs.filter (·.id < nc.id)) ++ [nc] ++ (cs.filter (·.id > nc.id))
   { s with cidx := { s.cidx with chunks := unknown.foldl add s.cidx.chunks } }
